@@ -7,7 +7,7 @@ use crate::json::Json;
 
 pub fn meta(_ctx: &Ctx) -> Meta {
     Meta {
-        rule: "every shape (c,h,w) in {1..4}^3 plus (1,1,7),(5,1,2),(2,6,1); every ordered 3-D->3-D pair; vector(n)<->3-D for n in 0..=64 against every shape; targets with an extent of 0 (must be refused for a non-empty source); seven large shapes (1024..3072 elements, tall / wide / square) against each other and their vectors; ops flatten/get_flat/get_triple/reshape and there-and-back (get_triple of a vector as a 3-D shape of another count must be refused like reshape); every case with three kinds of contents: 0,1,2,.. (pairwise distinct); zeros and subnormal numbers only; a cycle through -0, subnormals, 1e-30, +-1e-5, 1+-ulp, +-MAX, +-inf and NaN - compared as bit patterns. Non-trivial = a case with >=2 elements whose target nesting differs from the source nesting".into(),
+        rule: "every shape (c,h,w) in {1..4}^3 plus (1,1,7),(5,1,2),(2,6,1); every ordered 3-D->3-D pair; vector(n)<->3-D for n in 0..=64 against every shape; targets with an extent of 0 (must be refused for a non-empty source); seven large shapes (1024..3072 elements, tall / wide / square) and ten of 2^14..2^16 elements (changing row lengths, channel sizes that are no multiple of the source row length) against each other and their vectors; ops flatten/get_flat/get_triple/reshape and there-and-back (get_triple of a vector as a 3-D shape of another count must be refused like reshape); every case with three kinds of contents: 0,1,2,.. (pairwise distinct); zeros and subnormal numbers only; a cycle through -0, subnormals, 1e-30, +-1e-5, 1+-ulp, +-MAX, +-inf and NaN - compared as bit patterns. Non-trivial = a case with >=2 elements whose target nesting differs from the source nesting".into(),
         bound: "extents <= 4 (thorough 7) plus elongated and large shapes, vector lengths <= 64 (thorough 343); complete within the bound".into(),
         exhaustive: true,
         assumptions: vec!["vector->vector reshape and get_triple are only exercised with equal counts (the refusal clause names vector<->3-D and 3-D<->3-D)".into()],
@@ -65,13 +65,13 @@ pub fn check(case: &Kv, rep: &mut Report) {
                 match flat_dims(&f) {
                     Ok((d, v)) => {
                         if d != Dims::Flat(from.count()) || !same(&v, &data) {
-                            rep.violate("C14 flatten", format!("flatten of {} gave {:?} {:?}", from.name(), d, v), case);
+                            rep.violate("C14 flatten", format!("flatten of {} gave {:?} {}", from.name(), d, brief(&v)), case);
                         }
                     }
                     Err(e) => rep.violate("C14 flatten shape/data", e, case),
                 }
                 if !same(&g, &data) {
-                    rep.violate("C14 get_flat", format!("get_flat of {} gave {:?}", from.name(), g), case);
+                    rep.violate("C14 get_flat", format!("get_flat of {} gave {}", from.name(), brief(&g)), case);
                 }
             }
             Err(e) => rep.violate("C14 flatten panic", e, case),
@@ -114,7 +114,7 @@ pub fn check(case: &Kv, rep: &mut Report) {
                 rep.violate("C14 reshape recorded shape", format!("reshape {} -> {} recorded {:?}", from.name(), to.name(), d), case);
             }
             if !same(&v, &data) {
-                rep.violate("C14 reshape order", format!("reshape {} -> {} gave sequence {:?}", from.name(), to.name(), v), case);
+                rep.violate("C14 reshape order", format!("reshape {} -> {} gave sequence {}", from.name(), to.name(), brief(&v)), case);
             }
         }
         Err(e) => {
@@ -128,7 +128,7 @@ pub fn check(case: &Kv, rep: &mut Report) {
         Ok(b) => match flat(&b) {
             Ok((s, v)) => {
                 if s != lib_shape(from) || !same(&v, &data) {
-                    rep.violate("C14 round trip", format!("{} -> {} -> back gave {:?} {:?}", from.name(), to.name(), s, v), case);
+                    rep.violate("C14 round trip", format!("{} -> {} -> back gave {:?} {}", from.name(), to.name(), s, brief(&v)), case);
                 }
             }
             Err(e) => rep.violate("C14 round trip shape/data", e, case),
@@ -149,6 +149,15 @@ pub fn check(case: &Kv, rep: &mut Report) {
             Err(e) => rep.violate("C14 get_triple panic", e, case),
         }
     }
+}
+
+/// a long sequence is reported by its first elements and the first position at which it leaves 0, 1, 2, ..
+fn brief(v: &[f32]) -> String {
+    if v.len() <= 24 {
+        return format!("{:?}", v);
+    }
+    let off = v.iter().enumerate().position(|(i, x)| *x != i as f32);
+    format!("{:?}.. ({} elements; first element that is not its own index: {:?})", &v[..12], v.len(), off.map(|i| (i, v[i])))
 }
 
 pub fn cases(thorough: bool) -> Vec<Kv> {
@@ -185,6 +194,19 @@ pub fn cases(thorough: bool) -> Vec<Kv> {
         out.push(Kv::new().put("from", Dims::Flat(a.count()).name()).put("to", a.name()));
         out.push(Kv::new().put("from", a.name()).put("to", Dims::Flat(a.count() + 1).name()));
         for b in &big {
+            out.push(Kv::new().put("from", a.name()).put("to", b.name()));
+        }
+    }
+    // ... and tensors of 2^14 .. 2^16 elements (where an implementation might switch to a parallel or blocked copy), with
+    // row lengths that change and channel sizes that are no multiple of the source row length
+    let huge = [
+        Dims::Chw(3, 80, 80), Dims::Chw(50, 16, 24), Dims::Chw(16, 32, 32), Dims::Chw(1024, 1, 16), Dims::Chw(4, 64, 64), Dims::Chw(1, 128, 128),
+        Dims::Chw(7, 48, 50), Dims::Chw(25, 32, 21), Dims::Chw(3, 150, 145), Dims::Chw(29, 45, 50),
+    ];
+    for a in &huge {
+        out.push(Kv::new().put("from", a.name()).put("to", Dims::Flat(a.count()).name()));
+        out.push(Kv::new().put("from", Dims::Flat(a.count()).name()).put("to", a.name()));
+        for b in &huge {
             out.push(Kv::new().put("from", a.name()).put("to", b.name()));
         }
     }
